@@ -84,7 +84,8 @@ func (t *template) Frag(ctx context.Context) iter.Seq[string] {
 		}
 
 		s := &scanner.Scanner{}
-		s.Init(bytes.NewBuffer([]byte(strings.TrimLeft(t.format, "\n"))))
+		// text/scanner discards one leading byte order mark: hand it one, so that the format keeps its own
+		s.Init(bytes.NewBuffer([]byte("\uFEFF" + strings.TrimLeft(t.format, "\n"))))
 		s.Error = func(s *scanner.Scanner, msg string) {}
 
 		c := s.Next()
